@@ -641,7 +641,7 @@ fn parse_number(text: &str) -> IResult<&str, f32> {
     let (rest, _) = skip_optional_whitespace(text)?;
     let (rest, (sign, val)) = tuple((
         opt(alt((tag("-"), tag("+")))),
-        alt((parse_integer, parse_decimal)),
+        alt((parse_decimal, parse_integer)),
     ))(rest)?;
     Ok((
         rest,
